@@ -4,6 +4,7 @@ import json
 
 import sess_checks
 import flow_scen
+import sess_r7
 
 DRIVER = 'drv_C05'
 LEAN_TARGETS = ['NasdaqModel.Props.C06', 'drv_C05']
@@ -12,12 +13,15 @@ LEAN_TARGETS = ['NasdaqModel.Props.C06', 'drv_C05']
 def run(ctx):
     sess_checks.run_family(ctx, 'C06')
     flow_scen.run_flow(ctx, 'C06')
+    sess_r7.run_r7(ctx, 'C06')
 
 
 def replay(ctx, path):
     r = json.load(open(path))
     rep = r.get('replay') or (r.get('no_longer_checks') or [{}])[-1].get('case') or r
-    if 'flow_scenario' in rep:
+    if isinstance(rep, dict) and 'r7_scenario' in rep:
+        sess_r7.replay_r7(ctx, 'C06', rep)
+    elif 'flow_scenario' in rep:
         flow_scen.replay_flow(ctx, 'C06', rep)
     else:
         sess_checks.replay_family(ctx, 'C06', path)
